@@ -33,3 +33,108 @@ Qed.
 
 Corollary sw_run_spec w ops : sw_run w ops = lastn w (since_last_fit ops []).
 Proof. unfold sw_run. apply window_is_last_w. unfold lastn. reflexivity. Qed.
+
+(* ---- parameters that change between calls, only_labeled, weights (round I) ---- *)
+Lemma lastn_map {A B} (f : A -> B) w (l : list A) : map f (lastn w l) = lastn w (map f l).
+Proof. unfold lastn. rewrite map_length. symmetry. apply skipn_map. Qed.
+
+Lemma lastn_Forall {A} (P : A -> Prop) w (l : list A) : Forall P l -> Forall P (lastn w l).
+Proof.
+  intros H. unfold lastn. rewrite <- (firstn_skipn (length l - w) l) in H.
+  apply Forall_app in H. apply H.
+Qed.
+
+Lemma keepl_labeled l : Forall (fun p : nat * bool => snd p = true) (keepl true l).
+Proof. cbn. apply Forall_forall. intros p Hp. apply filter_In in Hp. apply Hp. Qed.
+
+(* the window never holds more than the CURRENT window_size samples *)
+Theorem swx_length_bound s c s' : swx_step s c = Some s' -> length (xwindow s') <= xw c.
+Proof.
+  unfold swx_step. destruct (xweights (if xfit c then xempty else s)) as [wl|], (xwt c);
+    intros H; inversion H; subst; cbn; rewrite lastn_length; apply Nat.le_min_l.
+Qed.
+
+(* the weights window, when there is one, stores the weights of exactly the samples of the window,
+   in the same order *)
+Definition xaligned (s : xwin) : Prop :=
+  match xweights s with Some wl => wl = map fst (xwindow s) | None => True end.
+
+Theorem swx_weights_aligned s c s' : xaligned s -> swx_step s c = Some s' -> xaligned s'.
+Proof.
+  unfold swx_step, xaligned. intros Ha.
+  assert (Hb : match xweights (if xfit c then xempty else s) with
+               | Some wl => wl = map fst (xwindow (if xfit c then xempty else s)) | None => True end)
+    by (destruct (xfit c); [reflexivity | exact Ha]).
+  destruct (xweights (if xfit c then xempty else s)) as [wl|], (xwt c);
+    intros H; inversion H; subst; cbn; try exact I.
+  rewrite lastn_map, map_app. reflexivity.
+Qed.
+
+Theorem swx_run_invariant : forall cs s s', xaligned s -> swx_run s cs = Some s' -> xaligned s'.
+Proof.
+  induction cs as [|c cs IH]; intros s s' Ha H; cbn in H.
+  - inversion H; subst; exact Ha.
+  - destruct (swx_step s c) as [s1|] eqn:E; [|discriminate].
+    apply (IH s1); [eapply swx_weights_aligned; eassumption | exact H].
+Qed.
+
+(* fit starts from scratch: whatever the object was given (or configured with) before is irrelevant *)
+Theorem swx_fit_forgets s1 s2 c : xfit c = true -> swx_step s1 c = swx_step s2 c.
+Proof. intros H. unfold swx_step. rewrite H. reflexivity. Qed.
+
+Theorem swx_history_before_fit_irrelevant : forall pre s c cs s1,
+  xfit c = true -> swx_run s pre = Some s1 -> swx_run s (pre ++ c :: cs) = swx_run xempty (c :: cs).
+Proof.
+  induction pre as [|p pre IH]; intros s c cs s1 Hc H; cbn in H.
+  - cbn. rewrite (swx_fit_forgets s xempty c Hc). reflexivity.
+  - cbn. destruct (swx_step s p) as [s2|]; [|discriminate]. apply (IH s2 c cs s1 Hc H).
+Qed.
+
+(* only_labeled on every call: nothing unlabeled ever sits in the window; in particular a fit on
+   unlabeled samples only leaves it empty *)
+Theorem swx_only_labeled s c s' :
+  Forall (fun p => snd p = true) (xwindow s) -> xol c = true -> swx_step s c = Some s' ->
+  Forall (fun p => snd p = true) (xwindow s').
+Proof.
+  intros Hs Hol. unfold swx_step. rewrite Hol.
+  assert (Hb : Forall (fun p : nat * bool => snd p = true) (xwindow (if xfit c then xempty else s)))
+    by (destruct (xfit c); [constructor | exact Hs]).
+  destruct (xweights (if xfit c then xempty else s)) as [wl|], (xwt c);
+    intros H; inversion H; subst; cbn [xwindow];
+    apply lastn_Forall, Forall_app; split; try exact Hb; apply keepl_labeled.
+Qed.
+
+Theorem swx_fit_unlabeled_only_empties s c s' :
+  xfit c = true -> xol c = true -> Forall (fun p => snd p = false) (xs c) -> swx_step s c = Some s' ->
+  xwindow s' = [].
+Proof.
+  intros Hf Hol Hu. unfold swx_step. rewrite Hf, Hol. cbn [xempty xweights xwindow app].
+  assert (Hk : keepl true (xs c) = []).
+  { cbn. induction (xs c) as [|p l IH]; [reflexivity|]. inversion Hu as [|? ? Hp Hl]; subst.
+    cbn. rewrite Hp. apply IH, Hl. }
+  rewrite Hk. destruct (xwt c); intros H; inversion H; subst; cbn; unfold lastn; destruct (0 - xw c); reflexivity.
+Qed.
+
+(* constant parameters: the richer model is the old one on the filtered batches *)
+Theorem swx_constant_params_window w ol : forall cs s s',
+  Forall (fun c => xw c = w /\ xol c = ol) cs -> swx_run s cs = Some s' ->
+  xwindow s' = fold_left (sw_step_gen w) (map (fun c => (xfit c, keepl ol (xs c))) cs) (xwindow s).
+Proof.
+  induction cs as [|c cs IH]; intros s s' Hall H; cbn in H.
+  - inversion H; subst; reflexivity.
+  - inversion Hall as [|? ? [Hw Ho] Hr]; subst. destruct (swx_step s c) as [s1|] eqn:E; [|discriminate].
+    cbn [map fold_left]. rewrite (IH s1 s' Hr H). f_equal.
+    unfold swx_step in E. unfold sw_step_gen. cbn [fst snd].
+    destruct (xfit c); cbn [xempty xweights xwindow app] in *;
+      [destruct (xwt c) | destruct (xweights s), (xwt c)]; inversion E; subst; reflexivity.
+Qed.
+
+(* the code as it was written: after window_size was lowered through set_params, partial_fit kept
+   more samples than the current window_size (recorded and repaired) *)
+Theorem swa_shrunk_window_overfull_refuted :
+  exists st c, let st' := swa_step st c in xw c < length (fst st').
+Proof.
+  exists ([(0, true); (1, true); (2, true); (3, true)], 4),
+         {| xfit := false; xw := 2; xol := false; xs := [(4, true)]; xwt := false |}.
+  vm_compute. lia.
+Qed.
